@@ -36,6 +36,14 @@ class Obj(object):
         return '<Obj %s>' % self.__dict__['_name']
 
 
+class _Return(Exception):
+    def __init__(self, v):
+        self.v = v
+
+
+BUILTIN_TYPES = {'list': list, 'dict': dict, 'tuple': tuple, 'str': str, 'int': int, 'set': set}
+
+
 class Opaque(object):
     """A value we know nothing about except its origin (kept so that dict
     values such as function references can be carried around)."""
@@ -50,7 +58,7 @@ class Opaque(object):
 PURE_BUILTINS = {
     'range': range, 'len': len, 'dict': dict, 'list': list, 'tuple': tuple, 'sorted': sorted, 'set': set,
     'int': int, 'str': str, 'min': min, 'max': max, 'zip': zip, 'enumerate': enumerate, 'map': None, 'filter': None,
-    'True': True, 'False': False, 'None': None, 'sum': sum, 'abs': abs, 'bool': bool, 'ord': ord, 'chr': chr,
+    'True': True, 'False': False, 'None': None, 'sum': sum, 'abs': abs, 'bool': bool, 'ord': ord, 'chr': chr, 'type': type,
 }
 SAFE_METHODS = {
     list: {'index', 'count', 'copy'}, tuple: {'index', 'count'},
@@ -85,6 +93,8 @@ class Evaluator(object):
             return self.env[n.id]
         if n.id in ('True', 'False', 'None'):
             return PURE_BUILTINS[n.id]
+        if n.id in BUILTIN_TYPES:
+            return BUILTIN_TYPES[n.id]
         if self.opaque_names:
             return Opaque(n.id, n)
         raise NotConst('name %s' % n.id)
@@ -297,6 +307,8 @@ class Evaluator(object):
             return r
         if isinstance(f, ast.Attribute):
             recv = self.ev(f.value, loc)
+            if isinstance(recv, Obj) and f.attr in recv.__dict__.get('_methods', {}):
+                return self.call_user(recv.__dict__['_methods'][f.attr], [recv] + args, kw)
             for t, names in SAFE_METHODS.items():
                 if isinstance(recv, t) and f.attr in names:
                     try:
@@ -311,6 +323,18 @@ class Evaluator(object):
         if self.opaque_names:
             return Opaque('call:%s' % ast.unparse(f), n)
         raise NotConst('call %s' % ast.unparse(f))
+
+    def call_user(self, fnode, args, kw=None):
+        """Call a method of the analysed class (plain positional parameters, body in the evaluable subset)."""
+        params = [a.arg for a in fnode.args.args]
+        if len(args) != len(params) or kw:
+            raise NotConst('call of %s with %d arguments' % (fnode.name, len(args)))
+        scope = dict(zip(params, args))
+        try:
+            self.exec_stmts(fnode.body, scope)
+        except _Return as r:
+            return r.v
+        return None
 
     # ----------------------------------------------------------- statements
     def bind(self, target, value, scope):
@@ -394,13 +418,15 @@ class Evaluator(object):
             raise NotConst('expression statement')
         elif isinstance(st, (ast.Pass, ast.Import, ast.ImportFrom)):
             return
+        elif isinstance(st, ast.Return):
+            raise _Return(self.ev(st.value, loc) if st.value is not None else None)
         else:
             raise NotConst('statement %s' % type(st).__name__)
 
 
 def _as_load(t):
-    import copy
-    t2 = copy.deepcopy(t)
+    from .linarith import clone
+    t2 = clone(t)
     for n in ast.walk(t2):
         if hasattr(n, 'ctx'):
             n.ctx = ast.Load()
